@@ -3,7 +3,7 @@
 import json, subprocess
 CHECKS = {
  "C01": ("fault_enumeration", "child-process isolation + recover(): every call must return; cut points x terminal reader behaviours enumerated per file",
-   "For every corpus/generated file and natural entry point, every cut point of a dense prefix and every structure boundary is crossed with five terminal reader behaviours; structure-aware malformations and random bytes are added from a seeded list. The oracle is 'the call returned' (panic caught by recover, fatal error seen as worker death). Held on the executions produced, not a proof.",
+   "For every corpus/generated file and natural entry point, every cut point of a dense prefix and every structure boundary is crossed with five terminal reader behaviours; structure-aware malformations (incl. wrap-around counts), grammar-based shapes (tightly packed ISOBMFF trees, TIFF directories with cooperating unusual fields, pending-tag overflow, PNG back-seeks, CR3 files with a nested header at a 4 KiB buffer boundary) and random bytes are added from a seeded list. The oracle is 'the call returned' (panic caught by recover, fatal error seen as worker death). Held on the executions produced, not a proof.",
    "Trusted: Go's recover()/exit status as the crash observer; walkers that find the structural fields; sample files capped at 96 KiB.", "3/C01"),
  "C02": ("exploration", "instrumented io.ReadSeeker (byte/seek/EOF-read counters) + per-call CPU-time watchdog (rusage)",
    "Every decode entry point is run over an instrumented reader on corpus files, structure-aware malformations, loop-targeted shapes and random inputs (up to 1 MiB thorough). The oracle compares the reader's counters with the linear bound and a CPU-time budget per call; 'terminates' is thereby restated as bounded progress.",
@@ -24,16 +24,16 @@ CHECKS = {
    "Each record/layout is serialised twice from the same streams, once per byte order, embedded in all five containers and decoded from pristine state; observations and errors of the pair must be identical.",
    "Trusted: the harness's writers produce pairs that differ in byte order only.", "3/C07"),
  "C08": ("fault_enumeration", "metamorphic monitor: fixed list of chunk schedules (incl. data+EOF) enumerated per input vs in-memory reader",
-   "Every input is decoded over an in-memory reader and then over every schedule of a fixed list of short-read schedules (1 byte ... 4097, mixed cycles, data delivered together with io.EOF) with a working Seek; canonical observations must be identical.",
+   "Every input (files, truncations incl. cuts inside out-of-line values, malformations, grammar-based shapes) is decoded over an in-memory reader and then over every schedule of a fixed list of short-read schedules (1 byte ... 4097, 64 KiB, mixed cycles, data delivered together with io.EOF, whole requests with data+EOF on the last read) with a working Seek; canonical observations must be identical.",
    "Trusted: the instrumented reader implements the io.Reader contract (never returns 0, nil).", "3/C08"),
  "C09": ("exploration", "exhaustive perturbation enumeration against an independent signature table; cross-entry agreement monitor",
-   "All single-byte perturbations of 31 canonical headers, suffix/truncation variants and seeded random/two-byte perturbations go through Buf, Scan, ScanBuf and ReadAt; agreement, prefix-only dependence, non-consumption, error mapping, soundness and completeness against the harness's own signature table are asserted.",
+   "All single-byte perturbations of 31 canonical headers, suffix/truncation variants and seeded random/two-byte perturbations go through Buf, Scan, ScanBuf and ReadAt, and through Scan/ScanBuf over one-byte, uneven and data+EOF readers; agreement, prefix-only dependence, non-consumption, error mapping, soundness and completeness against the harness's own signature table are asserted.",
    "Trusted: the harness's signature table (liberal form for soundness, documented standard form for completeness).", "3/C09"),
  "C10": ("exploration", "reference-model monitor: generator-held segment list vs recording callbacks of ScanJPEG",
    "Marker streams are generated with recorded offsets and payloads; recording callbacks implement the consumption behaviours the property quantifies over; callback order, header fields (absolute TIFF offset), readable bytes and the final error are compared with the record.",
    "Trusted: the harness's JPEG writer; fill bytes and parameterless markers are not generated in the header area.", "3/C10"),
  "C11": ("exploration", "position monitor on a harness-owned bufio.Reader + recording callbacks vs generator-held box tree",
-   "Random box trees (well-formed and with a child over/understating its size) are read through isobmff.Reader; the stream position after every top-level box and the bytes/headers seen by Exif, XMP and preview callbacks are compared with the tree.",
+   "Random box trees (well-formed; with a child or a whole chain of last children over/understating its size; with a nested header at a 4 KiB buffer boundary; with minimal TIFF blocks) are read through isobmff.Reader with callbacks that read all, part or nothing and sometimes report an error; the stream position after every top-level box and the bytes/headers seen by Exif, XMP and preview callbacks are compared with the tree.",
    "Trusted: the harness's box writer; top-level boxes are well-formed in every case.", "3/C11"),
  "C12": ("exploration", "exhaustive prefix enumeration against a naive search in the harness",
    "Every prefix over the signature alphabet up to length 7 (10 thorough) and random prefixes around buffer-refill boundaries precede an II/MM header; offset, byte order, first-IFD offset, reader position and the ErrNoExif condition are compared with a naive search of the same bytes.",
@@ -51,16 +51,16 @@ CHECKS = {
    "MessagePack, text, JSON and binary forms of every value type are round-tripped (exhaustively for 8/16-bit domains, all 65536 ExposureBias encodings, all UUID text forms) and every decoder with an error result is fed hostile input under recover().",
    "Trusted: encoding/json and tinylib/msgp runtime; the stated validity domains.", "3/C16"),
  "C17": ("exploration", "exhaustive enumeration of enum domains against harness name tables under recover()",
-   "String/Extension/TagName/FromString/Identify* are called on every value of every exported enum and identifier type (incl. negative halves and IfdType x tag id) and compared with tables written from the doc comments and the value lists they cite.",
+   "String/Extension/TagName/FromString/Identify* are called on every value of every exported enum and identifier type (incl. negative halves and IfdType x tag id) and compared with tables written from the doc comments and the value lists they cite; the last 32 returned strings are kept as returned and re-read after later calls.",
    "Trusted: the harness's name tables.", "3/C17"),
  "C18": ("exploration", "guard-page sanitizer (mmap + PROT_NONE + canary slack, SetPanicOnFault) around the assembly operands; side-by-side bit comparison asm vs portable through verif exports; direct float64 DCT-II reference",
-   "Every unit impulse of the 64/256-point kernels at 8 signed scales and all 4096 impulses of the 2-D kernel (exhaustive), edge vectors and seeded random vectors over 12 decades are run through the portable and the assembly kernel (operand flush against a PROT_NONE page, both placements) and compared bit for bit; the portable result is compared with a direct O(N^2) float64 DCT-II under the stated L1-relative bound; the exported dispatchers and the Alt hashes are run with the kernel selection switched both ways. A self-test shows a deliberate overrun faulting.",
+   "Every unit impulse of the 64/256-point kernels at 8 signed scales and all 4096 impulses of the 2-D kernel (exhaustive), edge vectors and seeded random vectors over 12 decades are run through the portable and the assembly kernel (operand flush against a PROT_NONE page, both placements, every third one only 4-byte aligned; signed zeros among the edge vectors) and compared bit for bit; the portable result is compared with a direct O(N^2) float64 DCT-II under the stated L1-relative bound; the exported dispatchers and the Alt hashes are run with the kernel selection switched both ways. A self-test shows a deliberate overrun faulting.",
    "Trusted: mmap/mprotect and Go's fault-to-panic conversion; the float64 reference DCT; only this CPU (AVX2). One listed known finding (256-point kernel, centre-mass inputs).", "3/C18"),
  "C19": ("exploration", "reference-model monitor: independent float64 2-D DCT-II of the converted luminance vs hash bits (median-threshold oracle with rounding margin); metamorphic repeats (poisoned pools, shifted origins, primary vs alternative); exhaustive size lattice for rejection",
    "Seeded images of the required size (RGBA, NRGBA with and without alpha, Gray, YCbCr 4:4:4; eight content families incl. the repository photographs) are hashed by all applicable functions; bits are compared with the coefficients of an independent DCT-II of the luminance, the luminance itself with the defining formula; hashes must be identical on repetition, after pool poisoning and at shifted origins / SubImage views. Every size of the lattice [0,70]^2 and [250,260]^2 (minus the accepted one), further sizes and nil must be rejected by all four functions, also with poisoned pools. Distance identities on random and edge hashes.",
    "Trusted: the float64 reference DCT; float32 margins derived from the kernel errors C18 measures; verif pool hooks.", "3/C19"),
  "C20": ("exploration", "guard-page sanitizer on all four operands (three planes + destination, pool buffers via the allocator hook) + per-pixel comparison with the portable formula at corresponding coordinates",
-   "YCbCr images of the accepted sizes over six subsampling ratios x six origins x three stride layouts x four contents are built with minimal-length planes, each plane and the destination flush against PROT_NONE pages; ImageToGray, AsmYCbCrToGray (aligned and misaligned destination), Rgb2GrayFast and the four hash functions run on them; every pixel must be within 2.0 of the portable formula at the corresponding coordinates, nothing may fault or touch canary slack, and each hash must satisfy the C19 oracle on the verified luminance.",
+   "YCbCr images of the accepted sizes over six subsampling ratios x six origins x five stride layouts (incl. separately padded luma / chroma rows) x four contents are built with minimal-length planes, each plane and the destination flush against PROT_NONE pages; ImageToGray, AsmYCbCrToGray (aligned and misaligned destination), Rgb2GrayFast and the four hash functions run on them; every pixel must be within 2.0 of the portable formula at the corresponding coordinates, nothing may fault or touch canary slack, and each hash must satisfy the C19 oracle on the verified luminance.",
    "Trusted: mmap/mprotect, Go's fault-to-panic conversion; image.YCbCr's own YOffset/COffset as the definition of 'corresponding coordinates'.", "3/C20"),
 }
 NOT_APPLICABLE = []
